@@ -60,18 +60,26 @@ def _replay_chunk(chunk):
     configs, variants, sd = _G["configs"], _G["variants"], _G["seed"]
     for idx, cid, events in chunk:
         cfg = configs[cid - 1]
+        wallobs: dict = {}
         for vi, var in enumerate(variants):
             perm = retryenv.class_perm(sd * 1000003 + idx * 31 + vi) if var.get("permute") else None
             try:
                 obs = retryenv.run_scenario(cfg, events, entry=var["entry"], perm=perm,
                                             place=var.get("place", "call"),
-                                            async_callbacks=var.get("async_callbacks", False))
+                                            async_callbacks=var.get("async_callbacks", False),
+                                            wall=var.get("wall", "jump"))
             except Exception as exc:  # noqa: BLE001 - harness failure inside a scenario
                 obs = [{"e": "harness-error", "what": f"{type(exc).__name__}: {exc}"}]
             n += 1
             if obs != events:
                 out.append({"cfg": full_cfg(cfg), "ev": obs, "predicted": events,
                             "variant": var, "beh": idx})
+            if "wallgroup" in var:
+                first = wallobs.setdefault(var["wallgroup"], (var, obs))
+                if first[1] != obs:
+                    out.append({"cfg": full_cfg(cfg), "ev": obs, "ev_other_wall_clock": first[1],
+                                "predicted": events, "variant": var, "variant_other": first[0],
+                                "beh": idx, "walldiff": True})
     return n, out
 
 
@@ -148,6 +156,7 @@ def random_scenario(rng: random.Random, focus: str) -> tuple[dict, list[dict]]:
         for _p in range(3):
             ev.append({"e": "poll", "ans": rng.random() < 0.06})
         ev.append({"e": "handler", "dec": rng.choice(["sleep", "sleep", "sleep", "defer", "abort"])})
+        ev.append({"e": "bsleep", "fault": rng.choice(["none"] * 12 + ["error", "error", "kbd", "cancel"])})
         ev.append({"e": "sleep", "adv": rng.choice(["exact", "exact", "exact", "over1", "over4", "none"]
                                                     + (["kbd", "cancel"] if rng.random() < 0.05 else []))})
     ev += [{"e": "deliver", "mode": mode} for _ in range(n_runs)]
@@ -162,7 +171,7 @@ def _random_chunk(args):
         cfg, ev = random_scenario(rng, focus)
         entry = rng.choice(["Retry", "AsyncRetry"])
         perm = retryenv.class_perm(base + i) if rng.random() < 0.5 else None
-        place = rng.choice(["call", "ctor"])
+        place = rng.choice(["call", "ctor", "both"])
         acb = entry == "AsyncRetry" and rng.random() < 0.5
         # a multi-run script: split the environment script evenly is unnecessary - queues are
         # global across runs; the deliver markers give the number of runs and the mode
@@ -198,12 +207,21 @@ def profile(prop: str, **kw) -> None:
 
 
 SYNC_ASYNC = [{"entry": "Retry", "permute": False}, {"entry": "AsyncRetry", "permute": True}]
-FOUR = [{"entry": "Retry", "permute": False}, {"entry": "AsyncRetry", "permute": True},
-        {"entry": "Retry", "permute": True, "place": "ctor"},
-        {"entry": "AsyncRetry", "permute": False, "place": "ctor", "async_callbacks": True}]
+FOUR = [{"entry": "Retry", "permute": False, "place": "both"},
+        {"entry": "AsyncRetry", "permute": True, "wall": "back"},
+        {"entry": "Retry", "permute": True, "place": "ctor", "wall": "frozen"},
+        {"entry": "AsyncRetry", "permute": False, "place": "ctor", "async_callbacks": True},
+        {"entry": "AsyncRetry", "permute": True, "place": "both", "async_callbacks": True}]
+
+WALL = [{"entry": "Retry", "wall": "jump", "wallgroup": "s"},
+        {"entry": "Retry", "wall": "frozen", "wallgroup": "s"},
+        {"entry": "Retry", "wall": "back", "wallgroup": "s"},
+        {"entry": "AsyncRetry", "wall": "jump", "wallgroup": "a"},
+        {"entry": "AsyncRetry", "wall": "frozen", "wallgroup": "a"}]
 
 for _p in ("C01", "C02", "C03", "C04", "C05", "C11", "C13", "C14", "C16"):
-    profile(_p, mc=f"RetryMC_{_p}.cfg", export=f"RetryMC_{_p}x.cfg", variants=FOUR,
+    profile(_p, mc=f"RetryMC_{_p}.cfg", export=f"RetryMC_{_p}x.cfg",
+            variants=WALL if _p == "C02" else FOUR,
             n_random={"quick": 1500, "thorough": 40000})
 
 
@@ -259,6 +277,16 @@ def check(prop: str, tier: str) -> Report:
     variants = pf["variants"]
     n_replayed, mism = replay_behaviours(configs, behs, variants)
     rand = random_traces(pf["n_random"][tier], prop)
+    walldiff = [t for t in mism if t.get("walldiff")]
+    mism = [t for t in mism if not t.get("walldiff")]
+    if prop == "C02":
+        for t in walldiff[:50]:
+            rep.add_violation("C02:wall-clock-influences-run", "C02/wall-clock-influences-run", {
+                "origin": "same TLC behaviour replayed under two wall-clock patterns",
+                "cfg": t["cfg"], "variant": t["variant"], "variant_other": t["variant_other"],
+                "observed": t["ev"], "observed_other_wall_clock": t["ev_other_wall_clock"],
+                "predicted_by_M": t["predicted"],
+                "how": "the two real runs differ only in what time.time() returns"})
     v1 = tlc_validate("RetryTrace", mism, f"{prop}-mism") if mism else []
     v2 = tlc_validate("RetryTrace", rand, f"{prop}-rand")
     nonconf = judge(rep, prop, mism, v1, "S->C replay of a TLC behaviour")
